@@ -404,6 +404,7 @@ def run_property(prop_id, obligations, tier, level="model_checking", assumptions
         unconfirmed = []
         replays_dir = os.path.join(OUTDIR, "replays")
         traces_validated = 0
+        todo = []
         for r in results:
             if r.status != "violated":
                 continue
@@ -417,30 +418,42 @@ def run_property(prop_id, obligations, tier, level="model_checking", assumptions
             if not new_failed:
                 r.status = "known-finding"
                 continue
-            # trace + native replay of the first few unexpected failures of this obligation
-            for f in new_failed[:2]:
-                os.makedirs(replays_dir, exist_ok=True)
-                tag = re.sub(r"[^A-Za-z0-9_.-]", "_", "%s-%s-%s" % (prop_id, r.ob.key, f["property"]))
-                rp = os.path.join(replays_dir, tag + ".json")
-                trace = get_trace(r.ob, scratch, f["property"], default_timeout * 2)
-                inputs = extract_inputs(trace) if trace else {}
-                verdict, detail = ("unavailable", "replay disabled for this obligation")
-                if r.ob.replay == "native" and trace is not None:
-                    verdict, detail = native_replay(r.ob, scratch, inputs, f["property"])
-                    if verdict in ("reproduced", "not_reproduced"):
-                        traces_validated += 1
-                rec = {"property_id": prop_id, "obligation": r.ob.key, "harness": r.ob.harness,
-                       "defs": r.ob.defs, "failed_property": f["property"], "description": f["description"],
-                       "inputs": inputs, "native_replay": verdict, "native_detail": detail,
-                       "cbmc_cmd": " ".join(cbmc_cmd(r.ob, "$SCRATCH", ["--trace", "--property", f["property"]])),
-                       "how_to_replay": "bin/check %s --replay %s" % (prop_id, rp)}
-                with open(rp, "w") as fp:
-                    json.dump(rec, fp, indent=1)
-                if verdict == "not_reproduced":
-                    unconfirmed.append((r.ob, f, rp, detail))
-                else:
-                    violations.append((r.ob, f, rp, verdict))
-            if not any(v[0] is r.ob for v in violations):
+            todo.extend((r, f) for f in new_failed[:2])
+
+        # trace + native replay of the first few unexpected failures of each obligation (in parallel)
+        def _replay(rf):
+            r, f = rf
+            os.makedirs(replays_dir, exist_ok=True)
+            tag = re.sub(r"[^A-Za-z0-9_.-]", "_", "%s-%s-%s" % (prop_id, r.ob.key, f["property"]))
+            rp = os.path.join(replays_dir, tag + ".json")
+            trace = get_trace(r.ob, scratch, f["property"], default_timeout * 2)
+            inputs = extract_inputs(trace) if trace else {}
+            verdict, detail = ("unavailable", "replay disabled for this obligation")
+            if r.ob.replay == "native" and trace is not None:
+                verdict, detail = native_replay(r.ob, scratch, inputs, f["property"])
+            rec = {"property_id": prop_id, "obligation": r.ob.key, "harness": r.ob.harness,
+                   "defs": r.ob.defs, "failed_property": f["property"], "description": f["description"],
+                   "inputs": inputs, "native_replay": verdict, "native_detail": detail,
+                   "cbmc_cmd": " ".join(cbmc_cmd(r.ob, "$SCRATCH", ["--trace", "--property", f["property"]])),
+                   "how_to_replay": "bin/check %s --replay %s" % (prop_id, rp)}
+            with open(rp, "w") as fp:
+                json.dump(rec, fp, indent=1)
+            return r, f, rp, verdict, detail
+
+        if todo:
+            with cf.ThreadPoolExecutor(max_workers=JOBS) as ex:
+                done = list(ex.map(_replay, todo))
+        else:
+            done = []
+        for r, f, rp, verdict, detail in done:
+            if verdict in ("reproduced", "not_reproduced"):
+                traces_validated += 1
+            if verdict == "not_reproduced":
+                unconfirmed.append((r.ob, f, rp, detail))
+            else:
+                violations.append((r.ob, f, rp, verdict))
+        for r in results:
+            if r.status == "violated" and not any(v[0] is r.ob for v in violations):
                 r.status = "unconfirmed"
 
         n_ob = len(results)
